@@ -183,6 +183,12 @@ impl Store {
     /// Reads and verifies a content-addressed blob, returning its payload.
     fn read_blob(&self, rel: &str) -> Option<Vec<u8>> {
         let data = fs::read(self.root.join(rel)).ok()?;
+        // Blobs are content-addressed: bytes that no longer hash to the file's
+        // own name were damaged or replaced, so they are a miss.
+        let name = Path::new(rel).file_stem()?.to_str()?;
+        if content_hash(&data) != name {
+            return None;
+        }
         let payload = data.strip_prefix(BLOB_MAGIC.as_slice())?;
         let (version, payload) = payload.split_first_chunk::<4>()?;
         if u32::from_le_bytes(*version) != SCHEMA_VERSION {
